@@ -903,7 +903,8 @@ impl rustc_driver::Callbacks for Cb {
         for did in const_ids {
             let name = tcx.def_path_str(did);
             let generics = tcx.generics_of(did);
-            if generics.count() > 0 {
+            // (lifetime parameters of the enclosing impl do not stand in the way of evaluating an associated constant)
+            if generics.requires_monomorphization(tcx) {
                 continue;
             }
             let ty = tcx.type_of(did).instantiate_identity().skip_norm_wip();
